@@ -116,6 +116,7 @@ func (e *Engine) VerifyUnit(c *Contract) (r *FnRun) {
 		fr.st.ghost["gv."+gv.Name] = ctx.term(v)
 	}
 	r.addCover("requires-satisfiable", True)
+	r.enterHolds(fr, c)
 	fr.entry = fr.st.Clone()
 	retGuard, out, results := fr.runBody(fr.st, True)
 	if retGuard.S == "false" {
@@ -537,6 +538,9 @@ func (r *FnRun) checkFrame(fr *Frame, out *State, retGuard Term) {
 		return
 	}
 	for _, name := range sortedKeys(out.heap) {
+		if r.lockTouched[name] {
+			continue // protected by a monitored mutex this unit took: the environment may change it
+		}
 		f, ok := r.frameFormula(fr, name, out.heap[name])
 		if !ok || f.S == "true" {
 			continue
@@ -591,6 +595,11 @@ func (r *FnRun) modTargets(fr *Frame, ctx *EvalCtx, e Expr, add func(comp string
 			}
 		case "chanState":
 			add(chanClosedComp, Term{}, true)
+		case "ghostOf":
+			x := ctx.Eval(e.Args[1])
+			add(ghostComp(e.Args[0]), ctx.term(x), false)
+		case "ghosts":
+			add(ghostComp(e.Args[0]), Term{}, true)
 		case "allElems":
 			ty, err := r.Eng.ResolveType(typeExprString(e.Args[0]), ctx.pkgPath)
 			if err != nil {
